@@ -7,6 +7,7 @@ Both sides print the same observation language (see lean/Driver.lean).
 from __future__ import annotations
 
 import asyncio
+import os
 import random
 import sys
 import warnings
@@ -292,6 +293,17 @@ def flatten(scn: Scn, live=None):
     return tlists, slists
 
 
+def normalize(scn: Scn):
+    """A plain function that returns an awaitable is only meaningful on the async engine, which the library
+    selects from the *coroutine functions* it resolved at construction: without one, such callbacks become
+    ordinary coroutine functions (keeps generated, mutated and shrunk scenarios within legal usage)."""
+    if not scn.is_async():
+        for c in scn.cbs:
+            if c.wrap == "lazy":
+                c.wrap = ""
+    return scn
+
+
 def expanded_trans(scn: Scn):
     """The transitions as the class holds them: explicit ones in declaration order, then one copy of
     every `from_.any()` template per non-final state."""
@@ -354,6 +366,91 @@ def _machine_lines(scn: Scn, live):
     return out
 
 
+REAL_PRIO = {"generic": 0, "inline": 10, "decorator": 20, "naming": 30, "after": 40}
+
+
+def _name_key(c: Cb):
+    """attribute name as the registry model sees it; a name attached to several groups is one attribute for the
+    library but one callback id per group for the harness, so every alias gets its own pseudo-name"""
+    return f"{c.name}#{c.group}" if c.alias_of else c.name
+
+
+def registry_lines(scn: Scn):
+    """The declaration the library sees, for `SMV.Reg.buildStates`: per owner the specs in the order the class
+    adds them (inline kwargs, decorators, convention names of `_setup`) with their priority, and per provider
+    the attributes it offers. The callback lists themselves are computed by the Lean model."""
+    names = {}
+
+    def nid(k):
+        return names.setdefault(k, len(names) + 1)
+
+    def tok(g, ref, prio, only=None, expected=True):
+        return f"{'cond' if g == 'unless' else g}/{ref}/{prio}/{'-' if only is None else only}/{int(expected)}"
+
+    def inline_specs(at, groups):
+        out = []
+        for g in groups:
+            seen = set()
+            for c in scn.cbs:
+                if c.at == at and c.group == g and c.style in ("name", "callable"):
+                    key = _name_key(c) if c.style == "name" else ("callable", c.id)
+                    if key in seen:
+                        continue
+                    seen.add(key)
+                    ref = f"n{nid(key)}" if c.style == "name" else f"c{c.id}"
+                    out.append(tok(g, ref, REAL_PRIO["inline"], expected=(g != "unless")))
+        return out
+
+    def deco_specs(at):
+        return [tok(c.group, f"c{c.id}", REAL_PRIO["decorator"], expected=(c.group != "unless"))
+                for c in scn.cbs if c.at == at and c.style == "decorator"]
+
+    out = []
+    for si, st in enumerate(scn.states):
+        sp = inline_specs(("s", si), ("enter", "exit")) + deco_specs(("s", si))
+        for g in ("enter", "exit"):
+            sp.append(tok(g, f"n{nid(f'on_{g}_state')}", REAL_PRIO["generic"]))
+            sp.append(tok(g, f"n{nid(f'on_{g}_{scn.sid(si)}')}", REAL_PRIO["naming"]))
+        out.append(f"sdecl val={st.val} init={int(st.initial)} final={int(st.final)} specs={';'.join(sp)}")
+
+    def tdecl(ti, tr, src):
+        sp = inline_specs(("t", ti), ("validators", "before", "on", "after", "cond", "unless")) + deco_specs(("t", ti))
+        sp.append(tok("before", f"n{nid('before_transition')}", REAL_PRIO["generic"]))
+        sp.append(tok("on", f"n{nid('on_transition')}", REAL_PRIO["generic"]))
+        for ev in tr.events:
+            for g in ("before", "on", "after"):
+                sp.append(tok(g, f"n{nid(f'{g}_{EVENTS[ev]}')}", REAL_PRIO["naming"], only=ev))
+        sp.append(tok("after", f"n{nid('after_transition')}", REAL_PRIO["after"]))
+        return (f"tdecl src={src} tgt={tr.tgt} int={int(tr.internal)} ev={lst(tr.events)} specs={';'.join(sp)}")
+
+    for ti, tr in enumerate(scn.trans):
+        if not tr.any:
+            out.append(tdecl(ti, tr, tr.src))
+    for ti, tr in enumerate(scn.trans):
+        if tr.any:
+            for si, st in enumerate(scn.states):
+                if not st.final:
+                    out.append(tdecl(ti, tr, si))
+    # providers: machine, model, listeners; what each offers
+    provs = ["machine", "model"] + sorted({c.provider for c in scn.cbs if c.provider.startswith("L")}
+                                          | set(scn.listeners_ctor)
+                                          | {o[1] for o in scn.ops if o[0] == "add_listener"})
+    pid = {p: i for i, p in enumerate(provs)}
+    for p in provs:
+        attrs = []
+        for c in scn.cbs:
+            if c.provider == p and c.style in ("conv", "name"):
+                attrs.append(f"{nid(_name_key(c))}:{c.id}")
+        out.append(f"prov {pid[p]} {','.join(attrs) if attrs else '-'}")
+    out.append("ctor " + ",".join(str(pid[p]) for p in scn.providers()))
+    attached = list(scn.providers())
+    for o in scn.ops:
+        if o[0] == "add_listener":
+            # (attaching a provider again resolves nothing new: every key was already seen)
+            out.append(f"late {pid[o[1]]}")
+    return out
+
+
 def model_lines(scn: Scn, live=None, kind="engine"):
     out = [f"scn {kind} {scn.name}"]
     out.append(
@@ -362,16 +459,22 @@ def model_lines(scn: Scn, live=None, kind="engine"):
     )
     for t in used_toks(scn):
         out.append(f"tok {t} {int(not bool(POOL[t]))} {rp(POOL[t])}")
+    registry = os.environ.get("VERIF_FLAT_MODEL", "") != "1"
     cur_live = list(scn.providers()) if live is None else list(live)
-    out += _machine_lines(scn, cur_live)
+    if registry:
+        # the Lean registry model computes the callback lists from the declared specs and the providers
+        out += registry_lines(scn)
+    else:
+        out += _machine_lines(scn, cur_live)
     # one machine variant per late attachment: the callback lists grow
     ops_out, k = [], 0
     for op in scn.ops:
         if op[0] == "add_listener":
-            if op[1] not in cur_live:
-                cur_live = cur_live + [op[1]]
-            out.append("variant")
-            out += _machine_lines(scn, cur_live)
+            if not registry:
+                if op[1] not in cur_live:
+                    cur_live = cur_live + [op[1]]
+                out.append("variant")
+                out += _machine_lines(scn, cur_live)
             k += 1
             ops_out.append(f"op swap {k}")
         elif op[0] == "send":
